@@ -727,6 +727,9 @@ def parse_rvalue(s):
             rest = rest[len('fake shallow '):]
         elif rest.startswith('fake '):
             rest = rest[5:]
+        rest = rest.strip()
+        if rest.startswith('(fake) '):      # `&raw const (fake) (*_13)`: a fake raw borrow (slice-length read)
+            rest = rest[len('(fake) '):]
         return Rvalue(kind, parse_place(rest), mut)
     m = re.match(r'^([A-Za-z]+)\(', s)
     if m and s.endswith(')') and find_matching(s, m.end() - 1) == len(s) - 1:
